@@ -778,6 +778,7 @@ func (fr *Frame) exec(ins ssa.Instruction, st *State, R string) {
 			mi := c.mapInfo(t.X.Type())
 			k := fr.val(t.Index)
 			v := c.mapGet(st, mi, x.L[0], k.L[0])
+			c.assumeValid(R, v)
 			if t.CommaOk {
 				ok := c.define("ok", SBool, c.mapHas(st, mi, x.L[0], k.L[0]))
 				fr.vals[t] = Val{T: t.Type(), Tup: []Val{v, boolVal(ok)}}
@@ -1293,5 +1294,6 @@ func (fr *Frame) next(t *ssa.Next, st *State, R string) {
 	st.cells[cell] = Val{L: []string{nv}, ST: cv.ST}
 	kv := Val{T: mi.K, L: []string{k}}
 	vv := c.mapGet(st, mi, m.L[0], k)
+	c.assumeValid(R, vv)
 	fr.vals[t] = Val{T: t.Type(), Tup: []Val{boolVal(ok), kv, vv}}
 }
